@@ -15,10 +15,19 @@ Theorem C04_parse : forall (items : list item) (last : list tok),
   = ROk (flat_map fst items ++ last) (map (fun it => triple (snd it)) items).
 Proof. exact RedirsProofs.C04_parse. Qed.
 
+(* `< file` / `<<< word` written with blanks; nothing around is itself an attached `<word` *)
 Theorem C04_parse_from : forall op pre post s2 f,
   (op = s_lt \/ (op = s_lt3 /\ f <> s_lt)) -> no_from pre -> no_from post ->
+  Forall (fun t => split_lt t = [t]) pre -> Forall (fun t => split_lt t = [t]) post ->
+  split_lt (s2, f) = [(s2, f)] ->
   from_tokens (pre ++ [([], op); (s2, f)] ++ post) = set_from (Some (op, f)) (from_tokens (pre ++ post)).
-Proof. exact RedirsProofs.C04_parse_from. Qed.
+Proof. exact RedirsProofs.C04_parse_from_spaced. Qed.
+(* `<file` without a blank (/repo 543507e): the same as the spaced spelling *)
+Theorem C04_parse_from_attached : forall pre post c r,
+  c <> 60%N -> no_from pre -> no_from post ->
+  Forall (fun t => split_lt t = [t]) pre -> Forall (fun t => split_lt t = [t]) post ->
+  from_tokens (pre ++ [([], 60%N :: c :: r)] ++ post) = set_from (Some (s_lt, c :: r)) (from_tokens (pre ++ post)).
+Proof. exact RedirsProofs.C04_parse_from_attached_now. Qed.
 
 (* ---- application: the reference is the POSIX left-to-right fold posix_sinks ---- *)
 (* what the property demands of stage idx of n: 0 is std_in (pipe / shell stdin / < file / here-string pipe),
@@ -48,14 +57,42 @@ Proof.
   eapply kids_ok_impl; [|exact K]. cbn beta. intros idx st k (KS & BD) KN HE. cbn in BD.
   destruct (kid_std_fds _ _ _ _ _ _ _ _ _ _ _ KS HE) as (A & B & C).
   assert (LE : idx <= length (p_stages pl) - 1) by lia.
-  assert (H : (idx =? length (p_stages pl) - 1) && p_capture pl = false \/ forallb is_file_redir (s_redirs st) = true).
+  assert (H : (idx =? length (p_stages pl) - 1) && p_capture pl = false \/ forallb is_file_redir (s_redirs st) = true \/ v_capfirst v = true).
   { unfold Known_C04_child, known_capdup in KN.
-    destruct ((idx =? length (p_stages pl) - 1) && p_capture pl) eqn:LC; [right|left; reflexivity].
+    destruct ((idx =? length (p_stages pl) - 1) && p_capture pl) eqn:LC; [right; left|left; reflexivity].
     try rewrite LC in KN. cbn [andb] in KN. apply no_dups_all_file. exact KN. }
-  rewrite (final_sinks_posix (p_capture pl) (length (p_stages pl) - 1) idx (s_redirs st) o0 e0 LE H) in B, C.
+  rewrite (final_sinks_posix v (p_capture pl) (length (p_stages pl) - 1) idx (s_redirs st) o0 e0 LE H) in B, C.
   replace (S (length (p_stages pl) - 1)) with (length (p_stages pl)) in B, C by lia.
   cbv zeta. auto.
 Qed.
+
+(* PROPOSED notes/C04-fix-4.patch (capture pipes before the redirections): no stage class is left -- `$(prog 2>&1)`,
+   `$(prog 1>&2)`, `$(prog > f 2>&1)` follow the POSIX fold over the capture pipes like any other descriptor *)
+Definition v_fix4 := mkv true true true true true true true.
+Theorem C04_sinks_fix4 : forall fail_at openable pl sh i0 o0 e0,
+  std_ok (tab sh) i0 o0 e0 -> is_single_builtin pl = false ->
+  let r := run_pipeline v_fix4 fail_at openable pl sh in
+  res_error r = false ->
+  kids_ok (fun idx st k => sinks_ok i0 o0 e0 (length (p_stages pl)) (p_capture pl) idx st k)
+          0 (p_stages pl) (res_kids r).
+Proof.
+  intros fail_at openable pl sh i0 o0 e0 SO NB r NE.
+  pose proof (kids_ok_bound _ _ _ _ (pipeline_kids v_fix4 openable fail_at pl sh i0 o0 e0 SO NB NE)) as K.
+  eapply kids_ok_impl; [|exact K]. cbn beta. intros idx st k (KS & BD) HE. cbn in BD.
+  destruct (kid_std_fds _ _ _ _ _ _ _ _ _ _ _ KS HE) as (A & B & C).
+  assert (LE : idx <= length (p_stages pl) - 1) by lia.
+  rewrite (final_sinks_posix v_fix4 (p_capture pl) (length (p_stages pl) - 1) idx (s_redirs st) o0 e0 LE
+             (or_intror (or_intror eq_refl))) in B, C.
+  replace (S (length (p_stages pl) - 1)) with (length (p_stages pl)) in B, C by lia.
+  cbv zeta. auto.
+Qed.
+Example C04_fix4_witnesses :
+  let ks rs := match res_kids (run_pipeline v_fix4 nf yes (mkplan [mks FNone rs KExt []] true) sh0) with
+               | [k] => map (obj_at (tab (k_proc k))) [1; 2; 3; 4; 5; 6] | _ => [] end in
+  ks [mkr F2 false TAmp1] = [Some (OPipeW PCapOut); Some (OPipeW PCapOut); None; None; None; None] /\
+  ks [mkr F1 false (TFile 5); mkr F2 false TAmp1] = [Some (OFile 5 MTrunc); Some (OFile 5 MTrunc); None; None; None; None] /\
+  ks [mkr F1 false TAmp2] = [Some (OPipeW PCapErr); Some (OPipeW PCapErr); None; None; None; None].
+Proof. vm_compute. repeat split; reflexivity. Qed.
 
 (* a source or target that cannot be opened: the stage is not exec'd and exits with status 1;
    otherwise it is exec'd (external), and exactly the files a POSIX shell opens are opened *)
@@ -93,16 +130,6 @@ Definition C04_full : Prop :=
      builtin_sink rs true = Some (fst (posix_sinks rs (OInh 1, OInh 2))) /\
      builtin_sink rs false = Some (snd (posix_sinks rs (OInh 1, OInh 2)))).
 
-(* cd /nonexistent 2>&1 : the builtin's message stays on descriptor 2 *)
-Example C04_refuted_builtin_dup :
-  builtin_sink [mkr F2 false TAmp1] false = Some (OInh 2) /\
-  snd (posix_sinks [mkr F2 false TAmp1] (OInh 1, OInh 2)) = OInh 1.
-Proof. vm_compute. split; reflexivity. Qed.
-(* alias 2> f 1>&2 : POSIX sends stdout to f, the builtin path to the terminal's stderr *)
-Example C04_refuted_builtin_order :
-  builtin_sink [mkr F2 false (TFile 5); mkr F1 false TAmp2] true = Some (OInh 2) /\
-  fst (posix_sinks [mkr F2 false (TFile 5); mkr F1 false TAmp2] (OInh 1, OInh 2)) = OFile 5 MTrunc.
-Proof. vm_compute. split; reflexivity. Qed.
 (* $(prog 2>&1) : the duplication is ignored when the output is captured *)
 Example C04_refuted_capture_dup :
   snd (child_sinks true [mkr F2 false TAmp1]) = Some (OPipeW PCapErr) /\
@@ -111,27 +138,30 @@ Proof. vm_compute. split; reflexivity. Qed.
 
 Theorem C04_refuted : ~ C04_full.
 Proof.
-  intros (_ & H). specialize (H [mkr F2 false TAmp1] eq_refl). destruct H as (_ & H).
+  intros (H & _). specialize (H true [mkr F2 false TAmp1] eq_refl).
   vm_compute in H. discriminate.
 Qed.
 
-(* PROPOSED notes/C04-fix-3.patch: with _get_std_fds as a left-to-right fold, every print of a builtin that is
-   alone on its line lands where the POSIX fold of ITS WHOLE redirection list says -- no list excluded -- and the
-   command fails (nothing printed) exactly when a file target cannot be opened *)
-Definition v_fix3 := mkv true true true true true true false.
-Theorem C04_builtin_sinks_fix3 : forall fail_at openable pl sh st o1 c1 o2 c2,
+(* builtins that run in the shell itself (/repo c05c052: _get_std_fds is a left-to-right fold): every print lands
+   where the POSIX fold of the WHOLE redirection list says -- no list excluded -- and the command fails (nothing
+   printed, status 1) exactly when a file target cannot be opened *)
+Theorem C04_builtin_sinks : forall fail_at openable pl sh st o1 c1 o2 c2,
   p_stages pl = [st] -> s_kind st = KBuiltin -> p_capture pl = false ->
   lookup (tab sh) 1 = Some (o1, c1) -> lookup (tab sh) 2 = Some (o2, c2) ->
-  let r := run_pipeline v_fix3 fail_at openable pl sh in
+  let r := run_pipeline v0 fail_at openable pl sh in
   let sk := posix_sinks (s_redirs st) (o1, o2) in
   (res_error r = false ->
    res_sinks r = map (fun is_out : bool => Some (if is_out then fst sk else snd sk)) (s_prints st)) /\
   (res_error r = true <-> allopen openable (s_redirs st) = false).
-Proof. intros. eapply builtin_sinks_fold; eauto. Qed.
-Example C04_builtin_fix3_witnesses :
-  res_sinks (run_pipeline v_fix3 nf yes (mkplan [mks FNone [mkr F2 false TAmp1] KBuiltin [false]] false) sh0) = [Some (OInh 1)] /\
-  res_sinks (run_pipeline v_fix3 nf yes (mkplan [mks FNone [mkr F2 false (TFile 5); mkr F1 false TAmp2] KBuiltin [true]] false) sh0) = [Some (OFile 5 MTrunc)].
-Proof. vm_compute. split; reflexivity. Qed.
+Proof. intros. eapply (builtin_sinks_fold v0); eauto. Qed.
+(* regression: the recursive look-ahead version before c05c052 *)
+Definition v_before_c05c052 := mkv true true true true true false false.
+Example C04_builtin_regression :
+  res_sinks (run_pipeline v_before_c05c052 nf yes (mkplan [mks FNone [mkr F2 false TAmp1] KBuiltin [false]] false) sh0) = [Some (OInh 2)] /\
+  res_sinks (run_pipeline v0 nf yes (mkplan [mks FNone [mkr F2 false TAmp1] KBuiltin [false]] false) sh0) = [Some (OInh 1)] /\
+  res_sinks (run_pipeline v_before_c05c052 nf yes (mkplan [mks FNone [mkr F2 false (TFile 5); mkr F1 false TAmp2] KBuiltin [true]] false) sh0) = [Some (OInh 2)] /\
+  res_sinks (run_pipeline v0 nf yes (mkplan [mks FNone [mkr F2 false (TFile 5); mkr F1 false TAmp2] KBuiltin [true]] false) sh0) = [Some (OFile 5 MTrunc)].
+Proof. vm_compute. repeat split; reflexivity. Qed.
 
 (* only the redirected command is affected: the shell's own table is what it was *)
 Theorem C04_shell_unaffected : forall v openable pl sh,
@@ -151,8 +181,10 @@ Proof. vm_compute. split; reflexivity. Qed.
 
 Print Assumptions C04_parse.
 Print Assumptions C04_parse_from.
+Print Assumptions C04_parse_from_attached.
 Print Assumptions C04_sinks.
 Print Assumptions C04_unopenable.
-Print Assumptions C04_builtin_sinks_fix3.
+Print Assumptions C04_sinks_fix4.
+Print Assumptions C04_builtin_sinks.
 Print Assumptions C04_shell_unaffected.
 Print Assumptions C04_refuted.
